@@ -38,6 +38,9 @@ def all_cases(tier):
                 out.append({"kind": "loader", "n": n, "batch": b, "transform": tr})
             for yl in ("column", "onehot3", "list"):          # label containers other than a 1-D array
                 out.append({"kind": "loader", "n": n, "batch": b, "transform": "default", "ylayout": yl})
+    for n, b in ((4, 2), (5, 2), (6, 3), (3, 3), (2, 3)):
+        for ret in ("list", "dict", "triple", "array"):
+            out.append({"kind": "loader_transform_result", "n": n, "batch": b, "returns": ret})
     for alphabet in ([0, 1, 2, 5], ["a", "b"], [3, -1]):
         for L in range(1, 5):
             for seq in itertools.product(alphabet, repeat=L):
@@ -139,6 +142,30 @@ def judge(case):
         except Exception as e:
             v("raised", f"{type(e).__name__}: {str(e)[:80]}")
         return {"nontrivial": n >= b, "outcome": "ok", "violations": viol}
+    if case["kind"] == "loader_transform_result":
+        # whatever the transform returns for a batch IS the batch the loader yields (a pair as a list, a dict, a single object)
+        n, b, ret = case["n"], case["batch"], case["returns"]
+        X = np.arange(n * 2, dtype=np.float32).reshape(n, 2); y = np.arange(n, dtype=np.float32) + 100
+        made = []
+        class Tr(D.DataLoaderCallback):
+            def __call__(self, dl, Xb, yb):
+                r = {"list": lambda: [Xb * 2, yb + 1], "dict": lambda: {"x": Xb * 2, "y": yb + 1}, "triple": lambda: (Xb, Xb * 2, yb + 1),
+                     "array": lambda: np.concatenate([np.asarray(Xb), np.asarray(yb).reshape(-1, 1)], axis=1)}[ret]()
+                made.append(r); return r
+        try:
+            dl = D.DataLoader(X, y, b, transform=Tr())
+            for rep in range(2):
+                made.clear()
+                got = list(dl)
+                if len(got) != n // b or len(made) != n // b:
+                    v("batch-count", f"transform returning a {ret}: {len(got)} batches, {len(made)} transform calls, expected {n // b}"); break
+                for k, (g, m) in enumerate(zip(got, made)):
+                    if g is not m:
+                        v("transform-result-not-yielded", f"transform returning a {ret}: batch {k} yielded by the loader is {type(g).__name__} "
+                          f"{str(g)[:80]}, not the object the transform returned"); break
+        except Exception as e:
+            v("raised", f"transform returning a {ret}: {type(e).__name__}: {str(e)[:80]}")
+        return {"nontrivial": n >= b, "outcome": "ok", "violations": viol}
     if case["kind"] == "onehot":
         labels = case["labels"]
         try:
@@ -169,7 +196,7 @@ def run(tier, seed):
     cov = {"evaluations": r["evaluations"], "distinct_nontrivial": r["distinct_nontrivial"],
            "rule": "split_dataset: n in 0..%d x test_split in {0,.1,.2,.25,.5,.75,1} x val_split in {None,0,.2,.5,1} x shuffle off / "
                    "EVERY permutation (n <= %d, scripted shuffle) / 3 real seeds; DataLoader: n in 0..10 x batch 1..6 x transform "
-                   "{omitted, None, identity callback, scaling callback} and label containers {1-D array, (n,1) column, (n,3) rows, Python lists}, two full passes + restart after a partial pass; one_hot_encode (labels as 1-D array, Python list, (n,1) column, list of 1-element arrays, float array): "
+                   "{omitted, None, identity callback, scaling callback} and label containers {1-D array, (n,1) column, (n,3) rows, Python lists}, two full passes + restart after a partial pass; transforms returning a list / dict / triple / single array are yielded as returned; one_hot_encode (labels as 1-D array, Python list, (n,1) column, list of 1-element arrays, float array): "
                    "every label sequence of length <= 4 over {0,1,2,5}, {'a','b'}, {3,-1}; non-trivial = at least 2 samples / a full batch"
                    % ((12, 4) if tier == "quick" else (16, 5)),
            "samples": r["samples"], "exhaustive": True, "outcomes": r["outcomes"]}
